@@ -13,6 +13,7 @@ package checks
 // and a fresh connection is still served afterwards.
 
 import (
+	"sync/atomic"
 	"bytes"
 	"encoding/binary"
 	"errors"
@@ -303,7 +304,9 @@ func runC15(tb stat.TB, c c15Case) {
 	pc := s.e.Pipe("10.9.8.7", 700)
 	writeDone := make(chan error, 1)
 	consumed := 0
+	var writerFinished atomic.Bool
 	go func() {
+		defer writerFinished.Store(true)
 		pc.C.SetWriteDeadline(time.Now().Add(8 * time.Second))
 		off := 0
 		for i := 0; len(c.Chunks) > 0 && off < len(stream) && off < 4096; i++ {
@@ -324,6 +327,7 @@ func runC15(tb stat.TB, c c15Case) {
 		writeDone <- err
 	}()
 	var got []uint32
+	readStart := time.Now()
 	closedByServer := false
 	var malformed string
 	want := len(ref.xids)
@@ -337,6 +341,10 @@ func runC15(tb stat.TB, c c15Case) {
 			var ne net.Error
 			if errors.Is(err, io.EOF) || errors.Is(err, io.ErrClosedPipe) || errors.Is(err, io.ErrUnexpectedEOF) {
 				closedByServer = true
+			} else if (errors.As(err, &ne) && ne.Timeout() || errors.Is(err, os.ErrDeadlineExceeded)) && !writerFinished.Load() && time.Since(readStart) < 90*time.Second {
+				// nothing to read yet, but the server is still taking the stream in (a busy machine): keep waiting -
+				// "idle" is only judged once the whole stream has been handed over
+				continue
 			} else if errors.As(err, &ne) && ne.Timeout() {
 				// idle
 			} else if errors.Is(err, os.ErrDeadlineExceeded) {
@@ -358,6 +366,8 @@ func runC15(tb stat.TB, c c15Case) {
 			break
 		}
 	}
+	// (read before the client end is closed: closing it makes a pending write fail)
+	wroteAll := writerFinished.Load() && consumed == len(stream)
 	pc.Close()
 	select {
 	case <-writeDone:
@@ -383,7 +393,11 @@ func runC15(tb stat.TB, c c15Case) {
 		j++
 	}
 	// (3) an undecodable record closes the connection
-	if ref.undecodable && !closedByServer {
+	if ref.undecodable && !closedByServer && !wroteAll {
+		// the server had not taken the whole stream in when the writer's deadline (8 s) passed: it may not have seen
+		// the undecodable record yet (a busy machine); nothing to judge
+		stat.Label("stream_not_taken_in_within_deadline", 1)
+	} else if ref.undecodable && !closedByServer {
 		if stat.Violate(tb, id, check, "connection-survives-undecodable-record", c, "%s: the server kept the connection open", what) {
 			return
 		}
